@@ -277,8 +277,9 @@ def check(ctx):
             else:
                 if rc == 0:
                     viol(sc, "exit status with an unwritable output path", "non-zero", {"exit": rc})
-            # ---- partial output = exactly the declarations that translated
-            if sc["ignore"]:
+            # ---- partial output = exactly the declarations that translated (when every output path could be written: after a failed
+            #      write the command stops with a non-zero status, and what it had not reached yet keeps its earlier content)
+            if sc["ignore"] and not unwritable:
                 red_root = os.path.join(scratch, "red")
                 gomod.write_module(red_root, {d: sc["reduced"][d] for d in sc["matched"]})
                 gomod.run_goose(red_root, sc["extra_flags"], ["./..."])
